@@ -76,6 +76,15 @@ def terminal_claims(trace, complete, linked):
     post_ok = ends.get('post_start', []) == ['ok']
     claims['actor_started_once_iff_post_start_ok'] = kinds.count('ActorStarted') == (1 if post_ok else 0)
     terminal = [k for k in kinds if k in ('ActorTerminated', 'ActorFailed')]
+    aborted = any(e[0] == 'TASK_ABORTED' for e in trace)
+    if complete and aborted:
+        # the task future was dropped at a suspension point: exactly one terminal event, the cancellation event
+        claims['cancelled_task_reports_exactly_one_terminal_event'] = len(terminal) == 1
+        if len(terminal) == 1:
+            d = evs[-1][2] if evs[-1][1] == 'ActorTerminated' else None
+            claims['cancellation_event_shape'] = (terminal[0] == 'ActorTerminated' and kinds[-1] == 'ActorTerminated' and d is not None and isinstance(d[0], Enum) and d[0].variant == 'None'
+                                                 and isinstance(d[1], Enum) and d[1].variant == 'Some' and isinstance(d[1].fields[0], Str) and d[1].fields[0].s == 'actor_task_cancelled')
+        return claims
     if complete:
         claims['exactly_one_terminal_event'] = len(terminal) == 1
         claims['terminal_event_is_last'] = bool(kinds) and kinds[-1] in ('ActorTerminated', 'ActorFailed')
